@@ -6,6 +6,7 @@
 import DtnVerif.Lemmas.TcpclSys
 import DtnVerif.Lemmas.TcpclKInv
 import DtnVerif.Lemmas.TcpclWake
+import DtnVerif.Lemmas.TcpclAgent
 namespace DtnVerif
 namespace Tcpcl
 
@@ -194,6 +195,42 @@ theorem C09_terminate_keeps_progress (e : Ep) (r : Nat) (hi : WakeInv e) :
         · rfl
         · simp only [flushPendStart, sendMessage, sendReady, kaReset, idleReset, setState]
           split <;> rfl
+
+
+/-! ### the agent over several contacts (tcpcl/agent.py) -/
+
+/-- **`Agent.stop()` leaves no session half-open**: every contact is closed and unbound, whatever the
+    number of contacts and whatever state each is in. -/
+theorem C09_agent_stop_closes_all (a : TcpclAgent.Agent) : (TcpclAgent.stop a).1.handlers = [] :=
+  TcpclAgent.stop_closes_all a
+
+/-- **`Agent.shutdown()` reaches every contact**: along any history of the agent (contacts bound,
+    established, terminating on their own, closing, earlier shutdown requests), after `shutdown()` every
+    contact which is still open has sent its SESS_TERM; the contacts it closed instead had no session to
+    end (so no transfer could be in progress); and it answers `True` exactly when nothing is left. -/
+theorem C09_agent_shutdown_complete (stopOnClose : Bool) (ops : List TcpclAgent.Op) :
+    let a := (TcpclAgent.run { stopOnClose := stopOnClose } ops).1
+    (∀ x ∈ (TcpclAgent.shutdown a).1.handlers, x.inTerm = true)
+    ∧ (∀ id, TcpclAgent.AOut.closed id ∈ (TcpclAgent.shutdown a).2 → ∃ y ∈ a.handlers, y.id = id ∧ y.inSess = false)
+    ∧ TcpclAgent.AOut.ret ((TcpclAgent.shutdown a).1.handlers.isEmpty) ∈ (TcpclAgent.shutdown a).2 := by
+  intro a
+  have hnd : (TcpclAgent.ids a).Nodup := TcpclAgent.run_nodup ops _ (by simp [TcpclAgent.ids])
+  exact ⟨TcpclAgent.shutdown_all_terminating a hnd, TcpclAgent.shutdown_closes_only_sessionless a,
+    TcpclAgent.shutdown_ret a⟩
+
+/-- **The agent stops only when every contact has closed**: the `on_stop` callback is reached from a
+    closing contact only if that was the last one and a shutdown was requested (or `stop_on_close` is
+    configured), and from `shutdown()` only when no contact is left. -/
+theorem C09_agent_stops_when_empty (a : TcpclAgent.Agent) (id : Nat) :
+    (TcpclAgent.AOut.stopped ∈ (TcpclAgent.contactClosed a id).2 →
+        (TcpclAgent.contactClosed a id).1.handlers = [] ∧ (a.inShutdown = true ∨ a.stopOnClose = true))
+    ∧ (TcpclAgent.AOut.stopped ∈ (TcpclAgent.shutdown a).2 → (TcpclAgent.shutdown a).1.handlers = []) :=
+  ⟨TcpclAgent.contactClosed_stopped a id, TcpclAgent.shutdown_stopped a⟩
+
+/-- three contacts — one still negotiating, one established, one already terminating — then `shutdown()`:
+    the first is closed, the second gets its SESS_TERM, the third is left alone, and the agent waits -/
+example : (TcpclAgent.run {} [.bind 0, .bind 1, .bind 2, .establish 1, .establish 2, .contactTerm 2, .shutdown]).2.getLast?
+    = some [.closed 0, .sessTerm 1, .ret false] := by decide
 
 end Tcpcl
 end DtnVerif
